@@ -40,14 +40,17 @@ NOGRID_FINALS = ['h_nogrid', 'h_nogrid_assets']
 OTHER_FINALS = ['h_split', 'h_costsample']
 PORTFOLIOS = ['dicts', 'wrappers', 'orderbook', 'classes', 'linked']
 NAIVE_ONLY = {'orderbook', 'classes', 'linked'}      # order dates are naive: EAO compares them with the grid points as they are
+FOUR_STEPS_ONLY = {'arrays'}      # inputs with one value per step: operations / final calls on grids of another length are no valid inputs
+ARRAY_OPS = ['h', 'cet', 'utc', 'dunit', 'same', 'costs', 'hshift']
+ARRAY_FINALS = ['h', 'cet', 'dunit']
 
 
 def cases(tier, seed):
     out = []
     L = 2 if tier == 'thorough' else 1
-    for pfk in PORTFOLIOS:
-        ops_ = [o for o in OPS if not (pfk in NAIVE_ONLY and o in ('cet', 'utc'))]
-        for fin in [f for f in FINALS if not (pfk in NAIVE_ONLY and f in ('cet', 'utc'))]:
+    for pfk in PORTFOLIOS + sorted(FOUR_STEPS_ONLY):
+        ops_ = ARRAY_OPS if pfk in FOUR_STEPS_ONLY else [o for o in OPS if not (pfk in NAIVE_ONLY and o in ('cet', 'utc'))]
+        for fin in (ARRAY_FINALS if pfk in FOUR_STEPS_ONLY else [f for f in FINALS if not (pfk in NAIVE_ONLY and f in ('cet', 'utc'))]):
             hs = [()]
             for k in range(1, L + 1):
                 hs += list(itertools.product(ops_, repeat=k))
@@ -57,6 +60,8 @@ def cases(tier, seed):
                 groups.setdefault(h[0] if h else '-', []).append(list(h))
             for g, lst in sorted(groups.items()):
                 out.append(('%s_final_%s_first_%s' % (pfk, fin, g), dict(pf=pfk, final=fin, histories=lst)))
+        if pfk in FOUR_STEPS_ONLY:
+            continue
         for fin in OTHER_FINALS:
             out.append(('%s_final_%s' % (pfk, fin), dict(pf=pfk, final=fin, histories=[[], ['same'], ['costs']] + ([['split'], ['h', 'same']] if tier == 'thorough' else []))))
         for fin in NOGRID_FINALS:
@@ -140,10 +145,13 @@ def mk_portfolio(D, kind):
         late = shapes.mk_market(D, 'late', nB, 0, 'q', wacc=D('wacc_late', lo=0))
         late.start, late.end = h(1), h(3)
         ob = shapes.mk_orderbook(D, 'ob', nB, mk_grid('h'), ((0, 2, 2.0), (1, 4, -1.5), (3, 4, 1.0)), wacc=D('wacc_ob', lo=0))
-        # a capacity given directly as a numpy array with one value per step (grids with four steps; other grids: rejected with and without history)
+        return eao.portfolio.Portfolio([m, late, ob])
+    if kind == 'arrays':
+        # capacities given directly as numpy arrays with one value per step: only grids with four steps are valid inputs for these objects
+        m = shapes.mk_market(D, 'mB', nB, 0, 'p', ec=True)
         caps = np.array([D('arr_cap%d' % k, lo=0) for k in range(4)], dtype=object if D.symbolic else float)
         arr = eao.assets.SimpleContract(name='arr', nodes=nB, price='q', min_cap=0., max_cap=caps, extra_costs=D('arr_ec', lo=0))
-        return eao.portfolio.Portfolio([m, late, ob, arr])
+        return eao.portfolio.Portfolio([m, arr])
     if kind == 'wrappers':
         base = shapes.mk_storage(D, 'base', nA, eff=0.75)
         sc = eao.assets.ScaledAsset(name='sc', base_asset=base, min_scale=0., max_scale=D('smax', lo=0), norm_scale=2.0, fix_costs=D('fixc', lo=0),
